@@ -57,6 +57,8 @@ func parseE2E(a []string) *e2eCase {
 			c.cc.seg, _ = strconv.Atoi(v)
 		case "frag":
 			c.cc.frag, _ = strconv.Atoi(v)
+		case "ccs":
+			c.cc.ccs = v == "1"
 		case "tlsmax":
 			n, _ := strconv.ParseUint(v, 16, 16)
 			c.cc.maxVer = uint16(n)
@@ -326,7 +328,7 @@ func init() {
 // genE2EScenario: one client's scenario (TLS stack and parameters, protocol, requests, HTTP/2 frame script);
 // `sub`: as part of e2emulti (server options come from the head group).
 func genE2EScenario(c *ctx, r *rng, sub bool) string {
-	kinds := []string{"go", "go", "utls-chrome", "utls-firefox", "utls-safari", "utls-ios", "utls-random", "utls-edge", "utls-360", "utls-qq", "utls-golang"}
+	kinds := []string{"go", "go", "utls-chrome", "utls-firefox", "utls-safari", "utls-ios", "utls-random", "utls-edge", "utls-360", "utls-qq", "utls-golang", "utls-nopf", "utls-nopf"}
 	{
 		{
 			kind := kinds[r.intn(len(kinds))]
@@ -398,6 +400,11 @@ func genE2EScenario(c *ctx, r *rng, sub bool) string {
 					extra = append(extra, [2]string{"X-Forwarded-Proto", "http"})
 					extra = append(extra, [2]string{"Forwarded", "for=6.6.6.6"})
 				}
+				if proto == "h2" && kind != "utls-random" && r.chance(1, 5) { // (the randomised preset may not offer ALPN at all)
+					// an HTTP/2 request may carry a `host` field besides :authority; the request is addressed to :authority
+					extra = append(extra, [2]string{"host", "internal.example"})
+					c.tag("h2-host-field-besides-authority")
+				}
 				host := []string{"example.test", "other.test:8443"}[r.intn(2)]
 				order := []string{"mspa", "masp", "pams", "samp", "mhpa", "hamp"}[r.intn(6)]
 				reqs = append(reqs, e2eReqTok([]string{"GET", "POST", "DELETE"}[r.intn(3)], []string{"/", "/a/b?x=1", "/p"}[r.intn(3)], host, ua, hasUA, order, extra))
@@ -429,6 +436,12 @@ func genE2EScenario(c *ctx, r *rng, sub bool) string {
 				extraOpts += fmt.Sprintf(" frag=%d", []int{1, 3, 4, 5, 38, 39, 45, 80, 150}[r.intn(9)])
 				seg = 0
 				c.tag("hello-over-two-records")
+			}
+			if kind == "go" && seg == 0 && !strings.Contains(extraOpts, "tlsmax") && !strings.Contains(extraOpts, "frag") && r.chance(1, 2) {
+				// the hello and an early change_cipher_spec record arrive in one segment: whatever follows the first record
+				// in the first read belongs to the TLS layer, not to the captured hello
+				extraOpts += " ccs=1"
+				c.tag("hello-plus-ccs-in-one-write")
 			}
 			return fmt.Sprintf("proto=%s client=%s alpn=%s sni=%s peer=%s seg=%d%s%s reqs=%s frames=%s", proto, kind, alpn, sni, peer,
 				seg, opts, extraOpts, strings.Join(reqs, ";"), fr)
